@@ -3,6 +3,7 @@ use crate::grammar::ItemPath;
 use crate::semantic::types::*;
 use crate::semantic::types::Visibility;
 use crate::semantic::TypeRegistry;
+#[allow(unused_imports)] use crate::verif_specs::*;
 verus!{
 /// size of a registered item, `None` while it is unresolved or unknown
 pub open spec fn reg_size(reg: &TypeRegistry, p: ItemPath) -> Option<usize> {
@@ -145,7 +146,7 @@ pub proof fn lemma_same_types_same_offsets(a: Seq<Region>, b: Seq<Region>, j: in
 
 // ---------- functional layout spec ----------
 pub uninterp spec fn u8_path() -> ItemPath;
-pub uninterp spec fn spec_field_name(off: nat) -> Seq<char>;
+pub open spec fn spec_field_name(off: nat) -> Seq<char> { spec_fmt1("_field_{size:x}"@, spec_display_usize(off as usize)) }
 
 pub open spec fn pad_type(n: nat) -> Type { Type::Array(Box::new(Type::Raw(u8_path())), n as usize) }
 pub open spec fn pad_region(n: nat) -> Region {
@@ -176,10 +177,26 @@ pub open spec fn layout_fields(input: Seq<(Option<usize>, Region)>, k: int, init
 pub open spec fn tail_pad(acc: (Seq<Region>, nat), target: Option<usize>, reg: &TypeRegistry) -> (Seq<Region>, nat) {
     match target { Some(t) => if acc.1 < t as nat { place(acc, pad_region((t - acc.1) as nat), reg) } else { acc }, None => acc }
 }
-pub open spec fn finalize_one(rs: Seq<Region>, i: int, reg: &TypeRegistry) -> Region {
-    if rs[i].name is None {
-        Region { visibility: Visibility::Private, name: rs[i].name, doc: None, type_ref: rs[i].type_ref, is_base: false }
-    } else { rs[i] }
+/// a generated (unnamed) region after finalisation: private, no doc, not a base, named `_field_<offset in hex>`
+pub open spec fn anon_ok(r: Region, t: Type, off: nat) -> bool {
+    &&& r.visibility == Visibility::Private
+    &&& r.name is Some && r.name->0@ == spec_field_name(off)
+    &&& r.doc is None
+    &&& r.type_ref == t
+    &&& !r.is_base
+}
+/// `out` is `pre` with every unnamed region finalised and every named region untouched
+pub open spec fn finalized_from(pre: Seq<Region>, out: Seq<Region>, reg: &TypeRegistry) -> bool {
+    &&& out.len() == pre.len()
+    &&& forall|i: int| 0 <= i < pre.len() ==> (if pre[i].name is Some { #[trigger] out[i] == pre[i] } else { anon_ok(out[i], pre[i].type_ref, offset_of(pre, i, reg)) })
+}
+/// complete functional specification of resolve_regions' region list (C01 C17 C20): the declared fields laid
+/// out sequentially after the optional vftable pointer region, padded up to the declared size, then finalised
+pub open spec fn regions_spec(input: Seq<(Option<usize>, Region)>, vr: Option<Region>, target: Option<usize>, out: Seq<Region>, size: usize, reg: &TypeRegistry) -> bool {
+    let init = match vr { Some(r) => place((Seq::<Region>::empty(), 0nat), r, reg), None => (Seq::<Region>::empty(), 0nat) };
+    &&& layout_fields(input, input.len() as int, init, reg) is Some
+    &&& tail_pad(layout_fields(input, input.len() as int, init, reg)->0, target, reg).1 == size
+    &&& finalized_from(tail_pad(layout_fields(input, input.len() as int, init, reg)->0, target, reg).0, out, reg)
 }
 
 // ---------- alignment vocabulary ----------
